@@ -4,6 +4,6 @@ DIFF=$(realpath "$1"); P=$2; T=${3:-quick}
 WT=/dev/shm/try_$P
 git -C /repo worktree add -q --detach "$WT" HEAD || exit 2
 if git -C "$WT" apply "$DIFF"; then
-  cd /verif && VERIF_REPO=$WT ./run "$P" --tier "$T" 2>&1 | grep "^$P tier\|HARNESS" | cut -c1-220
+  cd /verif && VERIF_REPO=$WT VERIF_OUT=$WT/.vf_out ./run "$P" --tier "$T" 2>&1 | grep "^$P tier\|HARNESS" | cut -c1-220
 else echo "NOAPPLY"; fi
 git -C /repo worktree remove --force "$WT"
